@@ -70,6 +70,8 @@ structure J where
   appCloses : Nat := 0
   bad : Option String := none
   unknown : Bool := false
+  /-- the first token the oracle has no rule for -/
+  unknownTok : Option String := none
 deriving Repr
 
 def classOf : QErr → List Pat
@@ -121,6 +123,9 @@ def onOp (j : J) (op : String) : J :=
       -- an (empty) DATA frame behind SETTINGS on the control stream: H3_FRAME_UNEXPECTED (RFC 9114 §7.2.1)
       else if natOf sid == some (peerCtlSid j.server) && (hex == "0004000000" || hex == "0000") then
         { j with causes := j.causes ++ [.exact "local:261"] }
+      -- the first byte of a two-byte stream type on another unidirectional stream of the peer: the
+      -- type is not known yet, the byte has no meaning of its own (RFC 9114 §6.2)
+      else if hex == "40" && ((natOf sid).map (fun n => (n % 4 == 2 || n % 4 == 3) && n != peerCtlSid j.server)).getD false then j
       else { j with unknown := true }
     | _ => { j with unknown := true }
   | 'f' :: r =>
@@ -241,10 +246,16 @@ def onToken (j : J) (tok : String) : J :=
       | some (call, res) => onResult j call res
       | none => { j with unknown := true }
 
-/-- the verdict: `ok`, `bad:<first rule broken>`; `ok` also when the oracle has no opinion -/
+/-- the verdict: `ok`, `bad:<first rule broken>`.  A history with a token the oracle has no rule for:
+    judged for C05 (`strict`, engines `flt5` / `fltj5`) it is refused — `bad:unknown-token(<token>)`,
+    never a silent `ok`: the generator must stay inside the oracle's alphabet; for C04 / C06 (`flt`),
+    whose own oracles judge the line, `ok` = no opinion of this one. -/
 def verdict (server grease strict : Bool) (toks : List String) : String :=
-  let j := toks.foldl onToken { server := server, grease := grease, strict := strict }
-  if j.unknown then "ok"
+  let j := toks.foldl (fun j tok =>
+      let j' := onToken j tok
+      if j'.unknown && j'.unknownTok.isNone then { j' with unknownTok := some tok } else j')
+    { server := server, grease := grease, strict := strict }
+  if j.unknown then (if strict then s!"bad:unknown-token({j.unknownTok.getD "?"})" else "ok")
   else match j.bad with
     | some w => "bad:" ++ w
     | none => "ok"
